@@ -58,6 +58,10 @@ pub fn programs() -> Vec<(String, Module)> {
             module(vec![("main", func(&[], vec![C::Repeat { n: b(int(k)), i: None, body: b(comp(vec![sg("sk", s(lit)), sg("t", C::CreateTable), C::SetProperty(b(rv("sk")), b(rv("t")), b(rv("sk"))), C::SetProperty(b(rv("sk")), b(rv("t")), b(rv("sk"))), C::SetProperty(b(rv("t")), b(rv("t")), b(int(1)))])) }, sg("done", int(1))]))]),
         ));
     }
+    // empty strings: a zero-length payload is still a charged allocation
+    for k in [10i64, 3000] {
+        v.push((format!("empty-string-churn-{k}"), module(vec![("main", func(&[], vec![C::Repeat { n: b(int(k)), i: None, body: b(comp(vec![sg("e", s("")), sg("t", C::CreateTable), C::SetProperty(b(s("")), b(rv("t")), b(s("")))])) }, sg("done", int(1))]))])));
+    }
     // sorting by a key function that returns one and the same object for every row
     for k in [10i64, 300] {
         v.push((
